@@ -17,7 +17,7 @@
 (* and never stops early: every line is examined.  The run is accepted by  *)
 (* the POSTCONDITION when all lines were consumed.                         *)
 (***************************************************************************)
-EXTENDS LsmProps, Json, IOUtils
+EXTENDS LsmProps, LsmBlob, Json, IOUtils
 
 Rec == ndJsonDeserialize(IOEnv.TRACE)
 NKeys == atoi(IOEnv.NKEYS)
@@ -389,6 +389,53 @@ DeadDropped(i) ==
             (GcEntry(svp, f)[3] = ById(pre.bfs, f).bytes /\ ById(pre.bfs, f).n > 0)
                 => f \notin Range(svq.blobs)
 
+\* conformance of the blob layer (spec/LsmBlob.tla): the blob file list and the fragmentation
+\* map after a merge / drop commit are what the transition rules compute from the previous
+\* recorded state
+GcFn(sv) == [f \in {g[1] : g \in Range(sv.gc)} |->
+                LET g == CHOOSE x \in Range(sv.gc) : x[1] = f IN <<g[2], g[3], g[4]>>]
+BfFn(rst) == [f \in Ids(rst.bfs) |-> [n |-> ById(rst.bfs, f).n, bytes |-> ById(rst.bfs, f).bytes]]
+LinkedOf(rst, ids) == {lk[1] : lk \in UNION {Range(ById(rst.tbls, t).links) : t \in ids}}
+
+BlobExpected(i, cfg) ==
+    LET r    == Rec[i]
+        prs  == Rec[StIdx(i - 1)].st
+        svp  == prs.hist[Len(prs.hist)]
+        blobs == Range(svp.blobs)
+        gc   == GcFn(svp)
+        bf   == BfFn(prs)
+        post == r.st.hist[Len(r.st.hist)]
+        same == [blobs |-> blobs, gc |-> gc]
+    IN IF r.op.op \in {"flush", "ingest"} THEN
+           [blobs |-> blobs \cup (Range(post.blobs) \ blobs), gc |-> gc]
+       ELSE IF r.op.op \notin (CompactOps \cup {"droprange"}) \/ "choice" \notin DOMAIN r.info THEN same
+       ELSE IF r.info.choice[1] = 1 THEN
+           LET ids   == ChoiceIds(r)
+               pre   == Pre(i)
+               dr    == MergeOutput(pre, ids, ChoiceDest(r), r.op.w, StepFilter(i, cfg)).dropped
+               \* pointers of the dropped Indirection entries (effective seqno = stored + g)
+               ptrs  == UNION {{<<p[1], p[2] + ById(prs.tbls, t).g, p[3], p[4], p[5], p[6]>>
+                                  : p \in Range(ById(prs.tbls, t).ptrs)} : t \in ids}
+               dropped == {p \in ptrs : \E j \in 1..Len(dr) :
+                              dr[j].t = "I" /\ dr[j].k = p[1] /\ dr[j].s = p[2]}
+               others == AllIds(svp.lv) \ ids
+               rew   == PickRewrite(bf, gc, LinkedOf(prs, ids), LinkedOf(prs, others),
+                                    cfg.bcfg.stale, 1000000, cfg.bcfg.cutoff, 1000000)
+               newF  == Range(post.blobs) \ blobs
+           IN IF post.vid = svp.vid THEN same
+              ELSE MergeBlobs(blobs, gc, bf, rew, newF, DiffOf(dropped))
+       ELSE IF r.info.choice[1] = 3 THEN
+           LET ids == ChoiceIds(r)
+               links == UNION {Range(ById(prs.tbls, t).links) : t \in ids}
+           IN IF post.vid = svp.vid THEN same
+              ELSE DropBlobs(blobs, gc, bf, links, ids # {})
+       ELSE same
+
+BlobConforms(i, cfg) ==
+    LET r == Rec[i] post == r.st.hist[Len(r.st.hist)] e == BlobExpected(i, cfg) IN
+    r.op.op \in {"reopen", "reset", "clear"}
+    \/ (Range(post.blobs) = e.blobs /\ GcFn(post) = e.gc)
+
 BlobChecks(i, r) ==
     /\ (NoDangling(r.st)      \/ Say("VIOL", "DANGLE", i, [h \in 1..Len(r.st.hist) |-> r.st.hist[h].dangling]))
     /\ (PointersPresent(r.st) \/ Say("VIOL", "PTR", i, r.st.bfs))
@@ -459,6 +506,9 @@ StateChecks(i, a, cfg) ==
           \/ Say("DRIFT", "mergeout", i, r.info))
     /\ (Expected(i, cfg) = st   \/ Say("DRIFT", "state", i, DiffFields(Expected(i, cfg), st)))
     /\ (~cfg.sep.on \/ BlobChecks(i, r))
+    /\ (~cfg.sep.on \/ BlobConforms(i, cfg)
+          \/ Say("DRIFT", "blob", i, <<r.st.hist[Len(r.st.hist)].blobs, r.st.hist[Len(r.st.hist)].gc,
+                                       BlobExpected(i, cfg)>>))
     /\ (cfg.rules = <<>> \/ "shown" \notin DOMAIN r.info \/ "choice" \notin DOMAIN r.info
           \/ r.info.choice[1] # 1 \/ ShownOk(i, cfg) \/ Say("DRIFT", "shown", i, r.info.shown))
 
@@ -498,8 +548,8 @@ CheckLine(i, a, cfg, prev) ==
 \* fl: line (within the behaviour, reset = 1) at which an I/O fault was injected (C16), fb: the
 \* trace line of the behaviour's reset
 CfgOf(r, at) == [sep |-> [on |-> r.op.blob, big |-> Range(r.op.big)], rules |-> r.op.filter,
-                 fl |-> r.op.fault_line, fb |-> at]
-Init == l = 0 /\ A = AInit /\ C = [sep |-> NoSep, rules |-> <<>>, fl |-> 0, fb |-> 0] /\ P = AInit /\ F = [on |-> FALSE]
+                 fl |-> r.op.fault_line, fb |-> at, bcfg |-> r.op.bcfg]
+Init == l = 0 /\ A = AInit /\ C = [sep |-> NoSep, rules |-> <<>>, fl |-> 0, fb |-> 0, bcfg |-> [thr |-> 0, target |-> 0, stale |-> 0, cutoff |-> 0]] /\ P = AInit /\ F = [on |-> FALSE]
 
 Next ==
     /\ l < Len(Rec)
